@@ -431,7 +431,7 @@ func allowInit(path string) bool {
 		"crypto/aes", "crypto/des", "crypto/tls", "crypto/x509", "embed", "iter", "slices", "maps", "cmp", "go/", "text/", "html",
 		"vendor/", "math/big", "crypto/elliptic", "crypto/ecdsa", "encoding/base64", "encoding/asn1", "compress", "mime", "github.com/stretchr", "github.com/pkg/errors",
 		"github.com/davecgh", "github.com/pmezard", "gopkg.in"}
-	allowExact := map[string]bool{"unicode/utf8": true, "internal/bytealg": false, "internal/itoa": true, "internal/byteorder": true}
+	allowExact := map[string]bool{"io": true, "unicode/utf8": true, "internal/bytealg": false, "internal/itoa": true, "internal/byteorder": true}
 	if v, ok := allowExact[path]; ok {
 		return v
 	}
